@@ -102,9 +102,37 @@ def build_zoo():
 #   1  every user class of one kind is called alike (`Dom`, `Cplx`, ...: what a class factory, `type(...)` called twice or a
 #      re-executed class statement produce), in the module of the harness
 #   2  every user class carries the __name__ / __qualname__ / __module__ of the LIBRARY class of its kind
+#   3  the zoo of variant 0 (the very same classes); after every operation of the history every read-only accessor
+#      (READ_ATTRS, plus repr / str / hash / ==) of every object the user holds is read and the value thrown away: reading
+#      leaves no trace (no reference to the object or its parts survives, no registry entry moves), so every history
+#      must be what it is without the reads
 # A registry belongs to a class OBJECT: the model's class table is the same for all variants, and so must every history be.
 VARIANTS = {}
 CURRENT = [0]
+READS = [False]
+READS_VARIANT = 3
+# properties only (nothing here constructs an object: `complement` is an operation of the histories, not a read)
+READ_ATTRS = ("name", "length", "dtype", "cname", "is_complement", "canonical_form", "sequence", "structure", "turns", "size",
+              "kernel_string", "strand_table", "pair_table", "domains", "enclosed_domains", "exterior_domains",
+              "is_domainlevel_complement", "is_connected", "concentration", "complexes", "representative", "reactants",
+              "products", "rtype", "reaction_string", "arity", "rate_constant")
+
+
+def read_accessors(held):
+    """read every read-only accessor of every held object; failures are values too (a sanity check may raise)"""
+    for k in range(len(held)):
+        if held[k] is None or type(held[k]) not in KIND:
+            continue
+        for a in READ_ATTRS:
+            try:
+                getattr(held[k], a)
+            except Exception:
+                pass
+        for f in (repr, str, hash, lambda x: x == x):
+            try:
+                f(held[k])
+            except Exception:
+                pass
 _OWN = ("__module__", "__qualname__", "__doc__", "__dict__", "__weakref__", "_instanceNames", "_instanceCanon")
 
 
@@ -113,6 +141,9 @@ def build_variant(v):
     if 0 not in VARIANTS:
         VARIANTS[0] = list(ZOO)
     if v in VARIANTS:
+        return VARIANTS[v]
+    if v == READS_VARIANT:
+        VARIANTS[v] = list(VARIANTS[0])
         return VARIANTS[v]
     if v not in (1, 2):
         raise ValueError(f"zoo variant {v!r}")
@@ -149,15 +180,17 @@ class zoo_variant:
     def __enter__(self):
         ZOO[:] = build_variant(self.v)
         CURRENT[0] = self.v
+        READS[0] = self.v == READS_VARIANT
 
     def __exit__(self, *a):
         ZOO[:] = VARIANTS[0]
         CURRENT[0] = 0
+        READS[0] = False
 
 
 def label(cls):
     """a name for messages: the class name, with the table index when names do not tell the classes apart"""
-    return cls.__name__ if CURRENT[0] == 0 else f"{cls.__name__}#{ZOO.index(cls)}"
+    return cls.__name__ if CURRENT[0] in (0, READS_VARIANT) else f"{cls.__name__}#{ZOO.index(cls)}"
 
 
 def class_table():
@@ -394,6 +427,8 @@ def run_history(nslots, ops, watch, quiet=0):
         out = []
         for k, op in enumerate(ops):
             outcome = m.run_op(op)
+            if READS[0]:
+                read_accessors(m.slots)
             if k >= quiet:
                 out.append(m.observe(outcome))
         return out
